@@ -318,6 +318,10 @@ def run_cases(r, quick):
                 sizes = list(sizes_t)
             if name in ('pso', 'aiwpso') and (not quick or sbo is False):
                 sizes = sizes + [[2, 2, 2, 3]]                      # HyperSpace: n_dimensions = 3
+            if name in ('pso', 'hs') and sbo is False:
+                sizes = sizes + [[3, 2, 300]]                       # SCALE: a long history (300 records per series)
+            if name == 'hc' and sbo is False and not quick:
+                sizes = sizes + [[130, 3, 4]]                       # SCALE: a large population
             for size in sizes:
                 seed = r.randrange(1, 10 ** 6)
                 E = Enc()
